@@ -16,6 +16,6 @@ CONSTANTS
   KeyShards <- NoKeyShards
   FaultBudget = 0
 VIEW View
-INVARIANTS InvDirValid InvDebris InvHandle InvNoErr InvNonBlocking
+INVARIANTS InvDirValid InvDebris InvHandle InvNoErr InvNonBlocking InvFdBound InvNoResidue
 PROPERTIES StepImmutable StepReadOnlyFirst StepRemoval StepRegister StepGetLin
 CHECK_DEADLOCK FALSE
